@@ -14,7 +14,8 @@ from __future__ import annotations
 import ast
 import re
 
-MODULE_NAMES = {"numpy", "math", "jax", "True", "False", "None", "len"}
+MODULE_NAMES = {"numpy", "math", "jax", "jnp", "True", "False", "None", "len"}
+UNPACKED = {"states": "unpackS", "parameters": "unpackP", "missing_variables": "unpackM"}
 
 
 def _uses(node) -> list[str]:
@@ -25,11 +26,47 @@ def _uses(node) -> list[str]:
     return sorted(out)
 
 
-NO_GUARD = {"present": False, "cond_uses": [], "consts": [], "strict": False, "then_uses": [], "else_uses": []}
+def _consts(node) -> list[str]:
+    return sorted({repr(abs(float(c.value))) for c in ast.walk(node)
+                   if isinstance(c, ast.Constant) and isinstance(c.value, (int, float)) and not isinstance(c.value, bool)})
+
+
+def _ops(node) -> list[str]:
+    """Comparison operators (and negations, which turn their meaning around) of an expression."""
+    out = {type(o).__name__ for c in ast.walk(node) if isinstance(c, ast.Compare) for o in c.ops}
+    for c in ast.walk(node):
+        if isinstance(c, ast.UnaryOp) and isinstance(c.op, (ast.Not, ast.Invert)):
+            out.add("Not")
+        if isinstance(c, ast.Call):
+            f = c.func.attr if isinstance(c.func, ast.Attribute) else getattr(c.func, "id", "")
+            if f in ("logical_not", "invert", "bitwise_not"):
+                out.add("Not")
+            if f in ("greater", "less"):
+                out.add({"greater": "Gt", "less": "Lt"}[f])
+            if f in ("greater_equal", "less_equal"):
+                out.add({"greater_equal": "GtE", "less_equal": "LtE"}[f])
+    return sorted(out)
+
+
+def _calls(node) -> list[str]:
+    out = set()
+    for c in ast.walk(node):
+        if isinstance(c, ast.Call):
+            out.add(c.func.attr if isinstance(c.func, ast.Attribute) else getattr(c.func, "id", "?"))
+        if isinstance(c, ast.IfExp):
+            out.add("where")
+    return sorted(out)
+
+
+def _facts(node) -> dict:
+    return {"uses": _uses(node), "consts": _consts(node), "ops": _ops(node), "calls": _calls(node)}
+
+
+NO_GUARD = {"present": False, "cond_uses": [], "consts": [], "ops": [], "then_uses": [], "else_uses": []}
 
 
 def _py_guard(val) -> dict:
-    """Outermost selection in a stored expression: numpy.where(c, a, b) or (a if c else b)."""
+    """Outermost selection in a stored expression: <lib>.where(c, a, b) or (a if c else b)."""
     for n in ast.walk(val):  # breadth first: the outermost one is met first
         cond = None
         if isinstance(n, ast.Call) and isinstance(n.func, ast.Attribute) and n.func.attr == "where" and len(n.args) == 3:
@@ -38,10 +75,7 @@ def _py_guard(val) -> dict:
             cond, a, b = n.test, n.body, n.orelse
         if cond is None:
             continue
-        consts = sorted({repr(abs(float(c.value))) for c in ast.walk(cond)
-                         if isinstance(c, ast.Constant) and isinstance(c.value, (int, float)) and not isinstance(c.value, bool)})
-        ops = {type(o).__name__ for c in ast.walk(cond) if isinstance(c, ast.Compare) for o in c.ops}
-        return {"present": True, "cond_uses": _uses(cond), "consts": consts, "strict": bool(ops) and ops <= {"Gt", "Lt"},
+        return {"present": True, "cond_uses": _uses(cond), "consts": _consts(cond), "ops": _ops(cond),
                 "then_uses": _uses(a), "else_uses": _uses(b)}
     return dict(NO_GUARD)
 
@@ -51,49 +85,67 @@ def python_functions(code: str) -> dict[str, list[dict]]:
     out = {}
     for fn in tree.body:
         if isinstance(fn, ast.FunctionDef):
-            out[fn.name] = {"args": [a.arg for a in fn.args.args], "stmts": _py_body(fn)}
+            out[fn.name] = {"args": [a.arg for a in fn.args.args + fn.args.kwonlyargs], "stmts": _py_body(fn)}
     return out
 
 
+def _returned(fn: ast.FunctionDef):
+    """(name of the returned array | None, names of a returned list | None)."""
+    for st in fn.body:
+        if isinstance(st, ast.Return) and st.value is not None:
+            v = st.value
+            if isinstance(v, ast.Name):
+                return v.id, None
+            if isinstance(v, ast.Call) and v.args and isinstance(v.args[0], (ast.List, ast.Tuple)):
+                return None, [e.id if isinstance(e, ast.Name) else "?" for e in v.args[0].elts]
+            if isinstance(v, (ast.List, ast.Tuple)):
+                return None, [e.id if isinstance(e, ast.Name) else "?" for e in v.elts]
+    return None, None
+
+
 def _py_body(fn: ast.FunctionDef) -> list[dict]:
+    """The output array is whatever the function returns: either one array that is allocated and then
+    written slot by slot (`r = ..; r[i] = ..; return r`), or a list of names (`return lib.array([a, b, ..])`:
+    the definition of the name at position i is the store of slot i).  No name of a local is assumed."""
     stmts = []
+    out_name, out_list = _returned(fn)
+    pos = {}
+    if out_list:
+        for i, n in enumerate(out_list):
+            pos.setdefault(n, []).append(i)
     for st in fn.body:
         if isinstance(st, ast.Expr) and isinstance(st.value, ast.Constant):
             continue  # docstring
         if isinstance(st, ast.Return):
-            nret = -1
-            v = st.value
-            if isinstance(v, ast.Call) and v.args and isinstance(v.args[0], (ast.List, ast.Tuple)):
-                nret = len(v.args[0].elts)
-            rets = []
-            if nret >= 0:
-                rets = [e.id if isinstance(e, ast.Name) else "?" for e in v.args[0].elts]
-            stmts.append({"k": "return", "nret": nret, "rets": rets, "uses": _uses(st.value) if st.value is not None else []})
+            nret = len(out_list) if out_list is not None else -1
+            bad = out_list is not None and ("?" in out_list or len(set(out_list)) != len(out_list))
+            stmts.append({"k": "return", "nret": nret, "rets": out_list or [], "rets_ok": not bad,
+                          "uses": [] if out_list is not None else (_uses(st.value) if st.value is not None else [])})
             continue
         if not isinstance(st, ast.Assign) or len(st.targets) != 1:
             stmts.append({"k": "other", "uses": _uses(st), "src": ast.dump(st)[:80]})
             continue
         tgt, val = st.targets[0], st.value
-        if isinstance(tgt, ast.Subscript) and isinstance(tgt.value, ast.Name) and tgt.value.id == "values":
+        if isinstance(tgt, ast.Subscript) and isinstance(tgt.value, ast.Name) and tgt.value.id == out_name:
             idx = tgt.slice
-            slot = idx.value if isinstance(idx, ast.Constant) else -1
-            stmts.append({"k": "store", "slot": slot, "uses": _uses(val), "guard": _py_guard(val)})
+            slot = idx.value if isinstance(idx, ast.Constant) and isinstance(idx.value, int) else -1
+            stmts.append({"k": "store", "slot": slot, **_facts(val), "guard": _py_guard(val)})
             continue
         if isinstance(tgt, ast.Name):
-            m = re.fullmatch(r"_values_(\d+)", tgt.id)
-            if m:
-                stmts.append({"k": "store", "slot": int(m.group(1)), "uses": _uses(val), "guard": _py_guard(val)})
+            if tgt.id in pos:
+                if len(pos[tgt.id]) != 1:
+                    stmts.append({"k": "other", "uses": _uses(st), "src": "name returned twice: " + tgt.id})
+                else:
+                    stmts.append({"k": "store", "slot": pos[tgt.id][0], "name": tgt.id, **_facts(val), "guard": _py_guard(val)})
                 continue
-            if (isinstance(val, ast.Subscript) and isinstance(val.value, ast.Name)
-                    and val.value.id in ("states", "parameters", "missing_variables")
+            if (isinstance(val, ast.Subscript) and isinstance(val.value, ast.Name) and val.value.id in UNPACKED
                     and isinstance(val.slice, ast.Constant)):
-                k = {"states": "unpackS", "parameters": "unpackP", "missing_variables": "unpackM"}[val.value.id]
-                stmts.append({"k": k, "name": tgt.id, "slot": val.slice.value})
+                stmts.append({"k": UNPACKED[val.value.id], "name": tgt.id, "slot": val.slice.value})
                 continue
-            if tgt.id in ("values", "shape"):
-                stmts.append({"k": "alloc", "name": tgt.id, "uses": _uses(val)})
+            if tgt.id == out_name or tgt.id == "shape":
+                stmts.append({"k": "alloc", "name": tgt.id, **_facts(val)})
                 continue
-            stmts.append({"k": "def", "name": tgt.id, "uses": _uses(val)})
+            stmts.append({"k": "def", "name": tgt.id, **_facts(val)})
             continue
         stmts.append({"k": "other", "uses": _uses(st), "src": ast.dump(st)[:80]})
     return stmts
@@ -124,6 +176,28 @@ def _match_fwd(s: str, i: int) -> int:
     raise ValueError("unbalanced")
 
 
+_C_CALL = re.compile(r"\b([A-Za-z_]\w*)\s*\(")
+_C_OPS = {"<": "Lt", ">": "Gt", "<=": "LtE", ">=": "GtE", "==": "Eq", "!=": "NotEq"}
+
+
+def _c_consts(s: str) -> list[str]:
+    return sorted({repr(abs(float(t))) for t in _C_NUM.findall(s)})
+
+
+def _c_ops(s: str) -> list[str]:
+    ops = {_C_OPS[o] for o in re.findall(r"[<>]=?|[!=]=", s)}
+    if re.search(r"!(?!=)", s):
+        ops.add("Not")
+    return sorted(ops)
+
+
+def _c_facts(s: str) -> dict:
+    calls = set(_C_CALL.findall(s))
+    if "?" in s:
+        calls.add("where")
+    return {"uses": _c_idents(s), "consts": _c_consts(s), "ops": _c_ops(s), "calls": sorted(calls)}
+
+
 def _c_guard(val: str) -> dict:
     """Outermost (cond) ? (a) : (b) of a stored C expression."""
     q = val.find("?")
@@ -147,10 +221,9 @@ def _c_guard(val: str) -> dict:
         b0 = val.index("(", c)
         b1 = _match_fwd(val, b0)
     except (AssertionError, ValueError, IndexError):
-        return {"present": True, "cond_uses": ["?"], "consts": [], "strict": False, "then_uses": [], "else_uses": []}
-    consts = sorted({repr(abs(float(t))) for t in _C_NUM.findall(cond)})
-    ops = set(re.findall(r"[<>]=?|[!=]=", cond))
-    return {"present": True, "cond_uses": _c_idents(cond), "consts": consts, "strict": bool(ops) and ops <= {">", "<"},
+        # a selection the tokenizer cannot take apart: nothing is claimed about it
+        return {"present": True, "cond_uses": ["?"], "consts": [], "ops": ["?"], "then_uses": [], "else_uses": []}
+    return {"present": True, "cond_uses": _c_idents(cond), "consts": _c_consts(cond), "ops": _c_ops(cond),
             "then_uses": _c_idents(val[a0:a1 + 1]), "else_uses": _c_idents(val[b0:b1 + 1])}
 
 
@@ -166,32 +239,38 @@ def c_functions(code: str) -> dict[str, dict]:
             depth += {"{": 1, "}": -1}.get(code[i], 0)
             i += 1
         body = code[m.end():i - 1]
+        arglist = [a.strip() for a in args.split(",") if a.strip()]
+        argnames = [a.split()[-1].lstrip("*") for a in arglist]
+        # the output array: the pointer argument that is not const
+        outs = [a.split()[-1].lstrip("*") for a in arglist if "*" in a and "const" not in a.split()]
+        out_name = outs[0] if len(outs) == 1 else None
         stmts = []
         for raw in body.split(";"):
             s = " ".join(raw.split())
             if not s:
                 continue
+            if "{" in s or "}" in s:
+                stmts.append({"k": "other", "uses": _c_idents(s), "src": s[:80]})
+                continue
             mm = re.fullmatch(r"(?:const\s+)?double\s+(\w+)\s*=\s*(states|parameters|missing_variables)\[(\d+)\]", s)
             if mm:
-                k = {"states": "unpackS", "parameters": "unpackP", "missing_variables": "unpackM"}[mm.group(2)]
-                stmts.append({"k": k, "name": mm.group(1), "slot": int(mm.group(3)), "decl": True})
+                stmts.append({"k": UNPACKED[mm.group(2)], "name": mm.group(1), "slot": int(mm.group(3)), "decl": True})
                 continue
             mm = re.fullmatch(r"(\w+)\[(\d+)\]\s*=\s*(.*)", s)
-            if mm:
-                stmts.append({"k": "store", "array": mm.group(1), "slot": int(mm.group(2)), "uses": _c_idents(mm.group(3)),
+            if mm and mm.group(1) == out_name:
+                stmts.append({"k": "store", "array": mm.group(1), "slot": int(mm.group(2)), **_c_facts(mm.group(3)),
                               "guard": _c_guard(mm.group(3))})
                 continue
-            mm = re.fullmatch(r"(const\s+)?double\s+(\w+)\s*=\s*(.*)", s)
+            mm = re.fullmatch(r"(?:const\s+)?(?:double|int|long|float)\s+(\w+)\s*=\s*(.*)", s)
             if mm:
-                stmts.append({"k": "def", "name": mm.group(2), "uses": _c_idents(mm.group(3)), "decl": True})
+                stmts.append({"k": "def", "name": mm.group(1), **_c_facts(mm.group(2)), "decl": True})
                 continue
             mm = re.fullmatch(r"(\w+)\s*=\s*(.*)", s)
             if mm:
-                stmts.append({"k": "def", "name": mm.group(1), "uses": _c_idents(mm.group(2)), "decl": False})
+                stmts.append({"k": "def", "name": mm.group(1), **_c_facts(mm.group(2)), "decl": False})
                 continue
             stmts.append({"k": "other", "uses": _c_idents(s), "src": s[:80]})
-        stmts.append({"k": "return", "nret": -1, "rets": [], "uses": []})
-        argnames = [a.split()[-1].lstrip("*") for a in args.split(",") if a.strip()]
+        stmts.append({"k": "return", "nret": -1, "rets": [], "rets_ok": True, "uses": []})
         out[name] = {"args": argnames, "stmts": stmts, "raw_args": args}
     return out
 
